@@ -219,6 +219,8 @@ theorem C04_hcmp_eq_iff (a b : List Nat) : HOrd.cmp a b = .eq ↔ HOrd.key a = H
 /-! ### the hypotheses are satisfiable / concrete instances -/
 
 example : [2, 0, 1].Perm (List.range [2, 0, 1].length) := by decide
+/-- `DefaultHasher::new().finish()` (SipHash-1-3, keys 0 0, empty input) -/
+example : Sip.defaultHash [] = 15130871412783076140 := by decide
 example : index [10, 20, 30] 1 = .ok 20 ∧ index [10, 20, 30] 3 = .panic := by decide
 example : indexMut [10, 20, 30] 1 99 = some [10, 99, 30] ∧ indexMut [10, 20, 30] 3 99 = none := by decide
 example : intoIter [10, 20, 30] = [(0, 10), (1, 20), (2, 30)] := by decide
